@@ -3,6 +3,7 @@ package main
 import (
 	"fmt"
 	"go/ast"
+	"go/constant"
 	"strconv"
 	"go/token"
 	"go/types"
@@ -450,6 +451,12 @@ func (x *Exec) callFunction(st *State, f *ssa.Function, bindings []Val, args []V
 	}
 	if !inPkg && (strings.HasPrefix(f.String(), "(*sync.Mutex).") || strings.HasPrefix(f.String(), "(*sync.RWMutex).")) && len(args) == 1 && x.curCall != nil && len(x.curCall.Args) == 1 {
 		x.lockOp(st, f.String(), x.curCall.Args[0], args[0].L[0], pos)
+	}
+	if !inPkg && f.String() == "fmt.Sprintf" && x.curCall != nil {
+		if t, ok := x.sprintf(st, x.curCall, args, pos); ok {
+			x.usedSpecs["builtin fmt.Sprintf(%v)"] = true
+			return true, Val{T: f.Signature.Results(), L: []Term{t}}
+		}
 	}
 	if name == "verifAssert" || name == "verifAssume" {
 		g := args[0].L[0]
@@ -980,4 +987,75 @@ func sortedKeys(m map[string]bool) []string {
 	}
 	sort.Strings(out)
 	return out
+}
+
+
+// sprintf gives fmt.Sprintf its meaning for formats made of literal text and
+// %v verbs whose arguments are strings or package values with a String()
+// method under contract (fmt calls that method). Anything else: no model.
+func (x *Exec) sprintf(st *State, c *ssa.CallCommon, args []Val, pos token.Pos) (Term, bool) {
+	fc, ok := c.Args[0].(*ssa.Const)
+	if !ok || fc.Value == nil || len(args) != 2 {
+		return "", false
+	}
+	format := constant.StringVal(fc.Value)
+	pieces := strings.Split(format, "%v")
+	for _, p := range pieces {
+		if strings.Contains(p, "%") {
+			return "", false
+		}
+	}
+	sl := args[1]
+	anyT := sl.T.Underlying().(*types.Slice).Elem()
+	var parts []Term
+	for i, p := range pieces {
+		if p != "" {
+			parts = append(parts, tStr(p))
+		}
+		if i == len(pieces)-1 {
+			break
+		}
+		ev := st.loadVal(extendIdx(sl.L[0], tAddInt(sl.L[1], fmt.Sprint(i))), anyT)
+		id, err := strconv.Atoi(ev.L[0])
+		if err != nil {
+			return "", false
+		}
+		dt, known := x.prog.typeByID[id]
+		if !known {
+			return "", false
+		}
+		var m *ssa.Function
+		if sel := types.NewMethodSet(dt).Lookup(x.prog.pkg.Types, "String"); sel != nil {
+			m = x.prog.prog.MethodValue(sel)
+		}
+		if m != nil && m.Signature.Params().Len() == 0 {
+			fs := x.prog.spec.Funcs[x.prog.relName(m)]
+			if fs == nil {
+				return "", false
+			}
+			var rv Val
+			if isPointerLike(dt) {
+				rv = Val{T: dt, L: []Term{ev.L[1]}}
+			} else if isStringKinded(dt) {
+				rv = Val{T: dt, L: []Term{unboxString(ev.L[1])}}
+			} else {
+				rv = st.loadVal(ev.L[1], dt)
+			}
+			res := x.applySpec(st, fs, x.paramNames(m), []Val{rv}, m.Signature, callCtx{label: x.prog.relName(m), pos: pos})
+			parts = append(parts, res.L[0])
+			continue
+		}
+		if isStringKinded(dt) {
+			parts = append(parts, unboxString(ev.L[1]))
+			continue
+		}
+		return "", false
+	}
+	switch len(parts) {
+	case 0:
+		return tStr(""), true
+	case 1:
+		return parts[0], true
+	}
+	return "(str.++ " + strings.Join(parts, " ") + ")", true
 }
